@@ -814,6 +814,7 @@ class Registry:
             bound[k] = a
         cs = State()
         cs.pc = st.pc  # shared: assumptions land in the caller
+        sub_orig = {}
         for n in pnames:
             if n not in bound:
                 if n not in c.defaults:
@@ -829,9 +830,12 @@ class Registry:
             try:
                 a_ = bound[n]
                 if (a_.t[0] == "obj" and c.params[n][0] == "obj" and a_.t != c.params[n] and c.params[n][1] in OBJ_LAYOUT
-                        and c.params[n][1] in self._all_bases(a_.t[1]) and all(f in a_.x for f in OBJ_LAYOUT[c.params[n][1]])
-                        and n not in c.modifies):
-                    # a subclass instance passed where the (non-mutating) contract speaks about the base class: its base-class fields
+                        and c.params[n][1] in self._all_bases(a_.t[1]) and all(f in a_.x for f in OBJ_LAYOUT[c.params[n][1]])):
+                    # a subclass instance passed where the contract speaks about the base class: its base-class fields
+                    # (a MUTATING base-class contract, e.g. super().__init__: only the base-class fields are havocked / written back,
+                    # the subclass's own fields are outside the base method's frame and keep their values)
+                    if n in c.modifies:
+                        sub_orig[n] = a_
                     a_ = V(c.params[n], {f: a_.x[f] for f in OBJ_LAYOUT[c.params[n][1]]})
                 if a_.t[0] == "opt" and c.params[n][0] not in ("opt", "closure") and c.params[n] != ("opaque", "Any"):
                     if not eng.spec:
@@ -949,7 +953,10 @@ class Registry:
             # write back mutated arguments
             for m in c.modifies:
                 idx = pnames.index(m)
-                self.write_back(eng, st, node, idx, m, cs.vars[m], self_expr)
+                nv_ = cs.vars[m]
+                if m in sub_orig:
+                    nv_ = V(sub_orig[m].t, {**sub_orig[m].x, **nv_.x})
+                self.write_back(eng, st, node, idx, m, nv_, self_expr)
             out.append((st, res))
             return out
         finally:
